@@ -85,3 +85,12 @@ func touchesFields(f *ssa.Function, named *types.Named, watched map[int]bool) bo
 	}
 	return false
 }
+
+// fsMutators: the calls that change the file system directly (package os and io/ioutil), for the
+// fs_effects frame clause.
+var fsMutators = map[string]bool{
+	"os.Remove": true, "os.RemoveAll": true, "os.Rename": true, "os.WriteFile": true, "os.Mkdir": true,
+	"os.MkdirAll": true, "os.Create": true, "os.OpenFile": true, "os.Truncate": true, "os.Chmod": true,
+	"os.Chown": true, "os.Symlink": true, "os.Link": true, "os.Chtimes": true, "os.MkdirTemp": true, "os.CreateTemp": true,
+	"io/ioutil.WriteFile": true, "io/ioutil.TempFile": true, "io/ioutil.TempDir": true,
+}
